@@ -14,7 +14,14 @@ package main
 //                  q.check            let it go on until it has decided, for a segment it listed as unrotated, that the segment
 //                                     is (still) unrotated and is about to read the unrotated info (GetSSRsFromQSR); if the
 //                                     query never gets there (nothing listed as unrotated any more) the step is a no-op
-//                  q.search           let it search and finish
+//                  q.plan             let it build the search request of that segment (from the unrotated info, or - if the
+//                                     segment left it meanwhile - from the rotated metadata); parks after it
+//                  q.open             let it go on until the column readers of that segment have decided (again) that the
+//                                     segment is unrotated and are about to fetch its block table from the unrotated info
+//                  q.fetch            let it open the readers and search; record queries park again when the readers that
+//                                     fetch the matched records' columns have decided that the segment is unrotated
+//                  q.search           let it finish
+// q.check / q.open / q.fetch are no-ops when the query never gets to that point (segment found rotated, no record fetch).
 // A step that cannot be forced (the goroutine needs a lock the parked one holds) makes the schedule infeasible.
 
 import (
@@ -57,7 +64,9 @@ func cmdVisSched(c Cmd) (interface{}, error) {
 	// getAllSegmentsInAggs (snapagg.*): whichever the query reaches
 	pU := []string{"snap.unrotated|" + qs, "snapagg.unrotated|" + qs}
 	pR := []string{"snap.rotated|" + qs, "snapagg.rotated|" + qs}
-	gateInstall("qid", append(append([]string{}, pU...), append(pR, "search.unrotated|"+qs, "flush.unrotated.visible|*", "rot.metadata.visible|*", "rot.unrotated.removed|*")...))
+	gateInstall("qid", append(append([]string{}, pU...), append(pR, "search.unrotated|"+qs, "search.planned|"+qs, "read.unrotated.checked|"+qs,
+		"fetch.unrotated.checked|"+qs, "flush.unrotated.visible|*", "rot.metadata.visible|*", "rot.unrotated.removed|*")...))
+	curSeg, want := "", "" // segment the writer is filling / the one the query listed last
 	// gate keys for writer points carry no qid: hookFn builds "point|<nil>" -> falls back to "point|*"
 	const W = 4 * time.Second
 	nextID := int(c.i64("first_id", 1))
@@ -74,6 +83,8 @@ func cmdVisSched(c Cmd) (interface{}, error) {
 	pendingInWip := 0
 	forced := 0
 	infeasible := ""
+	var q qres
+	gotQ := false
 	waitW := func() bool {
 		select {
 		case <-wdone:
@@ -105,6 +116,7 @@ func cmdVisSched(c Cmd) (interface{}, error) {
 			wTicket = gateArrive("flush.unrotated.visible|*", W)
 			ok = wTicket != nil
 			if ok {
+				curSeg = fmt.Sprint(wTicket.kv["segkey"])
 				flushedVisible += pendingInWip
 				pendingInWip = 0
 			}
@@ -126,6 +138,7 @@ func cmdVisSched(c Cmd) (interface{}, error) {
 				}
 				flushedVisible += pendingInWip
 				pendingInWip = 0
+				curSeg = fmt.Sprint(t.kv["segkey"])
 				t.letGo()
 			}
 			wTicket = gateArrive("rot.metadata.visible|*", W)
@@ -140,6 +153,7 @@ func cmdVisSched(c Cmd) (interface{}, error) {
 			ok = waitW()
 		case st == "q.snapU":
 			visibleBeforeQuery = flushedVisible
+			want = curSeg
 			go func() {
 				defer func() {
 					if r := recover(); r != nil {
@@ -164,10 +178,28 @@ func cmdVisSched(c Cmd) (interface{}, error) {
 			ok = qTicket != nil
 		case st == "q.check":
 			qTicket.letGo()
-			qTicket = gateArrive("search.unrotated|"+qs, 300*time.Millisecond) // nil: the query took the rotated path / is done
+			qTicket = gateArriveSeg("search.unrotated|"+qs, want, 300*time.Millisecond) // nil: the query took the rotated path / is done
+		case st == "q.plan":
+			gateClose("search.unrotated|" + qs)
+			qTicket = gateArriveSeg("search.planned|"+qs, want, 300*time.Millisecond)
+		case st == "q.open":
+			gateClose("search.planned|" + qs)
+			qTicket = gateArriveSeg("read.unrotated.checked|"+qs, want, 300*time.Millisecond)
+		case st == "q.fetch":
+			gateClose("read.unrotated.checked|" + qs)
+			qTicket = gateArriveSeg("fetch.unrotated.checked|"+qs, want, 300*time.Millisecond)
 		case st == "q.search":
-			qTicket.letGo()
+			gateClose("fetch.unrotated.checked|" + qs)
+			if qTicket != nil {
+				qTicket.letGo()
+			}
 			qTicket = nil
+			// the model's last query step ends the query: wait for the answer before the next writer step
+			select {
+			case q = <-qdone:
+				gotQ = true
+			case <-time.After(W):
+			}
 		}
 		if !ok {
 			infeasible = "step " + st + " could not be forced"
@@ -176,12 +208,12 @@ func cmdVisSched(c Cmd) (interface{}, error) {
 		forced++
 	}
 	gateReleaseAll()
-	var q qres
-	gotQ := false
-	select {
-	case q = <-qdone:
-		gotQ = true
-	case <-time.After(20 * time.Second):
+	if !gotQ {
+		select {
+		case q = <-qdone:
+			gotQ = true
+		case <-time.After(20 * time.Second):
+		}
 	}
 	// let writer goroutines finish
 	for i := 0; i < 2; i++ {
